@@ -13,6 +13,8 @@ from ..pathcond import calls_to
 from ..tables import _const, be_reads, builder_table, width_of
 from . import panicfree
 
+from .. import roles  # noqa: E402
+
 LEVEL = "proof"
 PR = "srtla_protocol::parsers::"
 TY = "srtla_protocol::types::"
@@ -46,7 +48,6 @@ def d2_nak_bound(ctx):
         return
     pa = ctx.pa(f)
     cfg = ctx.cfg(f)
-    out = [l for l, n in f.names.items() if n == "out"]
     pushes = [(bb, t) for (bb, t) in f.calls() if t["f"].get("path", "").endswith("::push")]
     heads = cfg.loop_heads()
     ctx.chk.ob("D2", "two nested loops (payload scan, range expansion)", len(heads) == 2, "%d loops" % len(heads), key="D2:loop-shape")
@@ -66,7 +67,8 @@ def d2_nak_bound(ctx):
     okb = bool(lim) and pa.entails(pa.pc_block(rng[0][0]), lim[0][1])
     ctx.chk.ob("D2", "range expansion pushes only while out.len() < 1000", okb, "PC = %s" % pa.show(pa.bdd.simplify(pa.pc_block(rng[0][0]), pa.pc_block(inner)), 3), key="D2:range-push-bounded")
     # every iteration of the payload loop consumes >= 4 bytes: a store `i := i + 4` dominates every back edge of the outer loop
-    il = [l for l, n in f.names.items() if n == "i"]
+    i0 = roles.counter(ctx.w, f, "usize", start=None, step=4, hint="i")
+    il = [i0] if i0 is not None else []
     adv = []
     if il:
         for d in pa.fa.defs.get(il[0], []):
@@ -132,7 +134,8 @@ def d3_layouts(ctx):
     if la:
         fa = ctx.fa(la)
         pa = ctx.pa(la)
-        il = [l for l, n in la.names.items() if n == "i"]
+        i0 = roles.counter(ctx.w, la, "usize", start=None, step=4, hint="i")
+        il = [i0] if i0 is not None else []
         pushes = [(bb, t) for (bb, t) in la.calls() if t["f"].get("path", "").endswith("::push")]
         ok = False
         detail = ""
@@ -233,7 +236,8 @@ def d4_round_trip(ctx):
         # ts = (ts << 8) | buf[2 + i] for i in 0..8  == big-endian u64 at [2,10)
         fa = ctx.fa(ts)
         pa = ctx.pa(ts)
-        tl = [l for l, n in ts.names.items() if n == "ts"]
+        t0 = roles.counter(ctx.w, ts, "u64", start=0, step=None, hint="ts", any_update=True)
+        tl = [t0] if t0 is not None else []
         ok = False
         detail = ""
         if tl:
